@@ -2,6 +2,8 @@
 #include "../Tag.h"
 #include "../Stream/BidirectionalReader.h"
 #include <stdexcept>
+#include <limits>
+#include <string>
 #include <cmath>
 #include <array>
 
@@ -22,6 +24,11 @@ namespace OP2Utility
 
 	BitmapFile BitmapFile::CreateIndexed(uint16_t bitCount, uint32_t width, int32_t height)
 	{
+		// The most negative height has no absolute value (std::abs would be undefined)
+		if (height == std::numeric_limits<int32_t>::min()) {
+			throw std::runtime_error("Bitmap height of " + std::to_string(height) + " is not supported");
+		}
+
 		BitmapFile bitmapFile;
 		bitmapFile.imageHeader = ImageHeader::Create(width, height, bitCount);
 		bitmapFile.palette.resize(bitmapFile.imageHeader.CalcMaxIndexedPaletteSize());
